@@ -47,7 +47,7 @@ def specs(rng, tier, wid, nw, env):
         for j in range(150 if q else 1500):
             k += 1
             if k % nw == wid: yield ('pp', 'smooth:%d' % g, rng.getrandbits(48))
-    N = 2500 if q else 100000
+    N = 5000 if q else 500000
     for i in range(N):
         c = rng.random()
         if c < 0.3: yield ('sqrt', rng.randint(1, 10), rng.choice(['sq', 'sqm1', 'sqp1', 'rand', 'ones', 'runsq', 'bnd']), rng.getrandbits(48))
